@@ -3,6 +3,7 @@
   (The implementation-side oracle `Spec.loweringRequests` is the negation of this statement, judged against the cloud's
   own description.)
 -/
+import EscProofs.P.GenAws
 import EscProofs.P.Assemble
 import EscProofs.P.C17
 import EscProofs.Lemmas.Journal
